@@ -198,6 +198,15 @@ func init() {
 		me.Quiescing = false
 		return nil, false
 	}
+	RegisterIntrinsic(p+"Preemptions", func(x *Exec, s *State, c *CallCtx) Value {
+		s.Preempt = int(x.concreteInt(c.Args[0], "n"))
+		return nil
+	})
+	blockingIntrinsics[p+"Yield"] = func(x *Exec, s *State, c *CallCtx) (Value, bool) {
+		// a voluntary scheduling point: every other runnable thread may run first
+		x.maybePreemptFree(s)
+		return nil, false
+	}
 	blockingIntrinsics[p+"Regroup"] = func(x *Exec, s *State, c *CallCtx) (Value, bool) {
 		// Regroup(v) = Join immediately followed by Fork(v), without merging in between: states
 		// regroup by the value v
@@ -250,6 +259,12 @@ func init() {
 	RegisterIntrinsic(p+"Unreachable", func(x *Exec, s *State, c *CallCtx) Value {
 		x.oblige(s, "assert", "unreachable: "+x.concreteName(c.Args[0]), s.G)
 		return nil
+	})
+	RegisterIntrinsic(p+"ZeroBytes", func(x *Exec, s *State, c *CallCtx) Value {
+		// a byte slice of the given length whose content (all zero) is never materialised
+		n := c.Args[0].(*Term)
+		id := x.newObj(&ArrayVal{E: []Value{}}, s)
+		return &SliceVal{Ptr: x.ptrTo(id, 0), Len: n, Cap: n}
 	})
 	RegisterIntrinsic(p+"LenOnly", func(x *Exec, s *State, c *CallCtx) Value {
 		// a byte slice of arbitrary (64-bit non-negative) length whose content is never read
